@@ -139,7 +139,10 @@ class Normalizer:
         if isinstance(e.slice, ast.Slice):
             return T.mk_slice(base, self.norm_opt(e.slice.lower), self.norm_opt(e.slice.upper),
                               self.norm_opt(e.slice.step))
-        return T.mk_idx(base, self.norm(e.slice))
+        t = T.mk_idx(base, self.norm(e.slice))
+        if t in self.heap:
+            return self.heap[t]
+        return t
 
     def n_Tuple(self, e, b):
         return ("tuple", tuple(self.norm(x) for x in e.elts))
